@@ -85,11 +85,51 @@ def v_gyear(t, ver):
     return bool(m) and year_ok(m.group(1), ver)
 
 
+def v_gyearmonth(t, ver):
+    m = re.fullmatch(r'(-?[0-9]{4,})-([0-9]{2})' + TZ, collapse(t))
+    if not m: return False
+    y = year_ok(m.group(1), ver)
+    if not y: return y
+    return 1 <= int(m.group(2)) <= 12
+
+
+def v_datetime(t, ver):
+    c = collapse(t)
+    m = re.fullmatch(r'(-?[0-9]{4,}-[0-9]{2}-[0-9]{2})T([0-9]{2}:[0-9]{2}:[0-9]{2}(\.[0-9]+)?)' + TZ, c)
+    if not m: return False
+    d = v_date(m.group(1), ver)
+    if not d: return d
+    return v_time(m.group(2), ver)
+
+
+def v_gmonthday(t, ver):
+    m = re.fullmatch(r'--([0-9]{2})-([0-9]{2})' + TZ, collapse(t))
+    return bool(m) and 1 <= int(m.group(1)) <= 12 and 1 <= int(m.group(2)) <= [31, 29, 31, 30, 31, 30, 31, 31, 30, 31, 30, 31][int(m.group(1)) - 1]
+
+
+def v_gmonth(t, ver):
+    m = re.fullmatch(r'--([0-9]{2})' + TZ, collapse(t))
+    return bool(m) and 1 <= int(m.group(1)) <= 12
+
+
+def v_gday(t, ver):
+    m = re.fullmatch(r'---([0-9]{2})' + TZ, collapse(t))
+    return bool(m) and 1 <= int(m.group(1)) <= 31
+
+
+def v_duration(t, ver):
+    m = re.fullmatch(r'-?P(([0-9]+Y)?([0-9]+M)?([0-9]+D)?)(T([0-9]+H)?([0-9]+M)?([0-9]+(\.[0-9]+)?S)?)?', collapse(t))
+    if not m: return False
+    if not (m.group(2) or m.group(3) or m.group(4) or m.group(6) or m.group(7) or m.group(8)): return False
+    return not (m.group(5) == 'T')
+
+
 def v_hex(t, ver): return re.fullmatch(r'([0-9a-fA-F]{2})*', collapse(t)) is not None
 
 
 TYPES = {k: v_int(*r) for k, r in INT.items()}
-TYPES.update(decimal=v_decimal, boolean=v_boolean, double=v_float, float=v_float, date=v_date, time=v_time, gYear=v_gyear, hexBinary=v_hex)
+TYPES.update(decimal=v_decimal, boolean=v_boolean, double=v_float, float=v_float, date=v_date, time=v_time, gYear=v_gyear, hexBinary=v_hex,
+             gYearMonth=v_gyearmonth, dateTime=v_datetime, gMonthDay=v_gmonthday, gMonth=v_gmonth, gDay=v_gday, duration=v_duration)
 NBSP = '\xa0'
 CAT = {
     'int': ['0', '-0', '+0', '00012', ' 12 ', '12\n', '1 2', '1_2', '１２', '12.', '12.0', '1e2', '', '-', '+', '--1', '0x10', ' 12', NBSP + '12', ' 12',
@@ -105,6 +145,13 @@ CAT = {
     'time': ['00:00:00', '23:59:59', '24:00:00', '24:00:01', '24:00:00.0', '24:00:00.1', '12:60:00', '12:00:60', '12:00:61', '12:00:00.123', '12:00:00.', '1:00:00', '12:00', '12:00:00Z',
              '12:00:00+14:00', '12:00:00+14:30', '12:00:00-00:00'],
     'gYear': ['2020', '0000', '-0001', '02020', '12020', '202', '2020Z', '2020+14:00', '2020+15:00', '99999999999999999999', '+2020'],
+    'gYearMonth': ['2020-02', '0000-03', '-0001-03', '02020-03', '12020-03', '2020-13', '2020-00', '2020-2', '2020-02Z', '2020-02+14:00', '2020-02+14:01', '2020', '2020-02-01', '99999999999-01'],
+    'dateTime': ['2020-02-29T12:00:00', '2019-02-29T12:00:00', '0000-01-01T00:00:00', '-0001-01-01T00:00:00', '2020-01-01T24:00:00', '2020-01-01T24:00:01', '2020-01-01T23:59:60', '2020-01-01T12:00:00.5Z',
+                 '2020-01-01T12:00:00+14:00', '2020-01-01T12:00:00+14:01', '2020-01-01 12:00:00', '2020-01-01T12:00', '2020-01-01', '12020-01-01T00:00:00', '02020-01-01T00:00:00', '2020-13-01T00:00:00', '2020-01-01t00:00:00'],
+    'gMonthDay': ['--02-29', '--02-30', '--04-31', '--12-31', '--13-01', '--00-10', '--1-1', '--02-29Z', '-02-29', '--02-29+14:00'],
+    'gMonth': ['--01', '--12', '--13', '--00', '--1', '--01Z', '--01--', '-01'],
+    'gDay': ['---01', '---31', '---32', '---00', '---1', '---01Z', '--01'],
+    'duration': ['P1Y', 'P1Y2M3DT4H5M6.7S', '-P1D', 'PT1S', 'P', 'PT', 'P1YT', 'P1S', 'PT1Y', 'P1.5Y', 'P-1Y', '+P1Y', 'P1Y2D3M', 'PT1.S', 'PT.5S', 'p1y', 'P1M', 'PT1M', 'P0Y'],
     'hexBinary': ['', '0A', '0a', '0', 'GG', '0A 0B', ' 0A ', '0A0B0C'],
 }
 # BCE leap day under XSD 1.0 is kept out of the deciding scope (XSD 1.0 does not fix the proleptic rule): reported only
@@ -137,7 +184,7 @@ def py_decimal_extra(v):
 
 def classify(t, v, got, exp, ver=None):
     if t in INT and got is True and exp is False and py_int_extra(v): return 'C02-integer-lexical-python-int'
-    if t == 'date' and ver == '1.1' and got != exp and re.fullmatch(r'[0-9]{5,}-02-29.*', collapse(v)): return 'C02-large-year-leap-day-xsd11'
+    if t in ('date', 'dateTime') and ver == '1.1' and got != exp and re.fullmatch(r'[0-9]{5,}-02-29.*', collapse(v)): return 'C02-large-year-leap-day-xsd11'
     if t in ('decimal', 'money') and got is True and exp is False and py_decimal_extra(v): return 'C02-decimal-lexical-python-decimal'
     return None
 
